@@ -50,11 +50,17 @@ def FinsRight (ends : List Nat) : Nat → List FEv → Prop
   | o, .frag b n _ :: r => n = (ends.filter fun e => o < e ∧ e ≤ o + b.length).length ∧ FinsRight ends (o + b.length) r
   | o, _ :: r => FinsRight ends o r
 
+/-- no zero-length handshake fragments (RFC 8446 §5.1) -/
+def FragsNonEmpty : List FEv → Prop
+  | [] => True
+  | .frag b _ _ :: r => b ≠ [] ∧ FragsNonEmpty r
+  | _ :: r => FragsNonEmpty r
+
 /-- RFC conformance of a fragmenting endpoint: its handshake stream is a sequence of whole messages (uint24 lengths),
     cut anywhere into non-empty fragments, and it switches keys after the records in which a Finished ends -/
 def FragConform (l : List FEv) : Prop :=
   ∃ msgs : List (UInt8 × Bytes), (∀ m ∈ msgs, m.2.length < 16777216) ∧ hsStream l = hsBytes msgs ∧
-    FinsRight (finEnds 0 msgs) 0 l ∧ ∀ e ∈ l, ∀ b n f, e = FEv.frag b n f → b ≠ []
+    FinsRight (finEnds 0 msgs) 0 l ∧ FragsNonEmpty l
 
 structure TranscriptF where
   ch : TlsHello.ClientHello
